@@ -126,7 +126,7 @@ def sem(e, env: Env):
         return sem(e.args[0], env)
     if isinstance(e, sp.im):
         return "s", sp.S.Zero
-    if isinstance(e, (sp.Abs, sp.sign, sp.sin, sp.cos, sp.exp, sp.log, sp.tan)) or isinstance(e, sp.core.function.AppliedUndef):
+    if isinstance(e, (sp.Abs, sp.sign, sp.sin, sp.cos, sp.exp, sp.log, sp.tan, sp.Max, sp.Min)) or isinstance(e, sp.core.function.AppliedUndef):
         args = []
         for a in e.args:
             k, s = sem(a, env)
